@@ -12,7 +12,7 @@ from . import c09
 from .c09 import ERR, FLAG, LOG, octx
 
 PROP = "C15"
-FLOORS = {"C15.R1": 24, "C15.R2": 6, "C15.R3": 5, "C15.R4": 6, "C15.R5": 6}
+FLOORS = {"C15.R1": 24, "C15.R2": 6, "C15.R3": 5, "C15.R4": 6, "C15.R5": 6, "C15.R6": 8}
 META = {
     "explanation": "Rectangular log: every region that appends a row (the body of the step loop -- helpers inlined --, "
                    "add_point_to_log) appends to each key of the `_log` literal exactly once on every normal path (path-sensitive "
@@ -323,19 +323,66 @@ def _published_arrays(col, rule="C15.R4"):
     col.count("published_arrays", n)
 
 
+def _mask_columns(col, rule="C15.R6"):
+    """the `vary_active` / `target_active` entries of a row are the masks in force when the row's point was evaluated:
+    each column takes the mask of its own side, read at the time the row is written (not before a call that changes flags)"""
+    repo = col.repo
+    side = {"vary_active": (("attr", ERR, "mask_input"), ("attr", ERR, "mask_output"), S.sattr("vary"), S.sattr("targets")),
+            "target_active": (("attr", ERR, "mask_output"), ("attr", ERR, "mask_input"), S.sattr("targets"), S.sattr("vary"))}
+    n = 0
+    for meth in ("add_point_to_log", "step"):
+        sx = octx(repo, "Optimize", meth)
+        cfg = sx.cfg
+        ap = _appends(sx)
+        flips = [ev.nid for ev, m in sx.calls_some(("call", ("attr", S.SELF, S.V("m", lambda t: t in ("enable", "disable", "_set_state"))), S.ANY, S.ANY))]
+        flips += [ev.nid for ev, m in sx.calls_some(("call", ("glob", "_set_state"), S.ANY, S.ANY))]
+        flips += [e.nid for e in sx.of_kind("store") if e.target[:1] == ("attr",) and e.target[2] == "active"]
+        for key, (own, other, own_list, other_list) in side.items():
+            for ev, v in ap.get(key, []):
+                n += 1
+                subs = set(S.subterms(v))
+                has_own = own in subs or any(t[:1] == ("attr",) and t[2] == "active" and t[1] == ("elem", own_list) for t in subs)
+                has_other = other in subs or any(t[:1] == ("attr",) and t[2] == "active" and t[1] == ("elem", other_list) for t in subs)
+                if not has_own and not has_other:
+                    raise AnalysisError(f"Optimize.{meth}: the value appended to `{key}` ({S.show(v)[:80]}) is not derived from the masks in a recognised way (cannot decide)")
+                col.add(rule, f"Optimize.{meth}#{key}-from-own-mask", has_own and not has_other, sx.loc(ev),
+                        f"`{key}` records the {'knob' if key == 'vary_active' else 'target'} mask (reload restores the flags of that side from it)",
+                        S.show(v)[:100])
+                arg = ev.node.args[0] if getattr(ev, "node", None) is not None and getattr(ev.node, "args", None) else None
+                nodes = _value_nodes(sx, arg, ev.nid) if arg is not None else [ev.nid]
+                stale = [f for f in flips for d in nodes if d != ev.nid and cfg.path_avoiding(d, f, []) and cfg.path_avoiding(f, ev.nid, [d])]
+                col.add(rule, f"Optimize.{meth}#{key}-read-when-the-row-is-written", not stale, sx.loc(ev),
+                        "the mask is read after the last change of active flags that precedes the row (the temporary enable/disable of step() included)",
+                        f"flags may change at {[sx.loc(f) for f in stale[:2]]} between the read and the append")
+    col.count("mask_column_appends", n)
+
+
 def check(col: Collector):
-    _rectangular(col)
-    c09.check_reload(col, rule="C15.R2")
-    _take_best(col)
-    _row_consistency(col)
-    _published_arrays(col)
+    with col.rule():
+        _rectangular(col)
+    with col.rule():
+        _mask_columns(col)
+    with col.rule():
+        c09.check_reload(col, rule="C15.R2")
+    with col.rule():
+        _take_best(col)
+    with col.rule():
+        _row_consistency(col)
+    with col.rule():
+        _published_arrays(col)
     # "within all tolerances" in step() is the flag the merit function computes: same obligations as C09.R3/R4
     from .common import shared
-    shared(col, "C15.R5", [c09._flag],
-           why="step() stops and skips take_best on the strength of last_point_within_tol")
+    with col.rule():
+        shared(col, "C15.R5", [c09._flag],
+               why="step() stops and skips take_best on the strength of last_point_within_tol")
     # the row logged after a solver step pairs knobs/penalty of the committed point with the merit function's side state
     # (target values, tol_met) -- they belong to one point only if the committed point is the one evaluated last
     from . import c10
     from .common import construct_tag
-    shared(col, "C15.R5", [c10._limits], select=lambda o: construct_tag(o) == "trial-equals-commit",
-           why="the log row reads the merit function's last evaluation next to the committed knobs")
+    with col.rule():
+        shared(col, "C15.R5", [c10._masks], select=lambda o: construct_tag(o) == "disabled-targets-zeroed",
+               why="the penalty of a row is that of the active targets under the row's masks: a disabled target (whatever its value, NaN included) "
+                   "contributes exactly 0")
+    with col.rule():
+        shared(col, "C15.R5", [c10._limits], select=lambda o: construct_tag(o) == "trial-equals-commit",
+               why="the log row reads the merit function's last evaluation next to the committed knobs")
